@@ -206,3 +206,18 @@ class CountingReader(asyncio.StreamReader):
     async def readexactly(self, n: int) -> bytes:
         self._count()
         return await super().readexactly(n)
+
+
+@contextlib.contextmanager
+def global_clock(read_ns: t.Callable[[], int]):
+    """Replaces time.time_ns / time.time process-wide (every module sees it, whichever way it imported `time`):
+    a frozen, coarse or stepping wall clock is ordinary host behaviour.  time.monotonic is left alone."""
+    import time as _time
+
+    real = (_time.time_ns, _time.time)
+    _time.time_ns = lambda: int(read_ns())           # type: ignore
+    _time.time = lambda: read_ns() / 1e9             # type: ignore
+    try:
+        yield
+    finally:
+        _time.time_ns, _time.time = real             # type: ignore
